@@ -4,6 +4,7 @@
 package main
 
 import (
+	"math"
 	"crypto/rand"
 	"crypto/cipher"
 	"crypto/aes"
@@ -255,6 +256,29 @@ func runSessionEdge(e *sEdge, dense bool) {
 		expect(cur, enc(n, c), false, "", false, key+":expired", e)
 		_, _, n, c = cur.sealToken("alice:true:-5")
 		expect(cur, enc(n, c), false, "", false, key+":negative", e)
+	case "own-key-extreme-time":
+		// 2^64 ns = 18446744073.709551616 s: a time stamp that far away (times k) plus an offset inside the lifetime looks
+		// "just issued" to an age computed in wrapping 64-bit nanoseconds; likewise for micro- and milliseconds, 2^32 and 2^31 s
+		now := time.Now().Unix()
+		var cands []int64
+		for _, period := range []int64{18446744073, 18446744074, 18446744073709, 18446744073710, 18446744073709551, 1 << 32, 1 << 31, 1 << 53, 1 << 55, 1 << 62} {
+			for _, k := range []int64{1, -1, 2, -2, 3, 100} {
+				if k*period/k != period {
+					continue
+				}
+				for _, off := range []int64{0, -1, 1, -int64(sLifetime/time.Second) / 2, -int64(sLifetime/time.Second) + 1} {
+					cands = append(cands, now+k*period+off)
+				}
+			}
+		}
+		cands = append(cands, math.MaxInt64, math.MinInt64, math.MinInt64+now, math.MaxInt64-now, 0, -1, 1)
+		for _, ts := range cands {
+			if d := ts - now; d <= 0 && d >= -int64(sLifetime/time.Second) {
+				continue // (a wrapped sum that landed inside the lifetime is an ordinary live token)
+			}
+			_, _, n, c := cur.sealToken(fmt.Sprintf("mallory:true:%d", ts))
+			expect(cur, enc(n, c), false, "", false, key, e)
+		}
 	case "own-key-wellformed":
 		for _, u := range []string{"alice", "a", "Zed-9_.@x", ""} {
 			for _, a := range []bool{true, false} {
